@@ -51,7 +51,8 @@ Snippets == {"<apply><min/></apply>", "<apply><max/></apply>", "<piecewise/>", "
              "<apply><eq/><ci>v1</ci><ci>v1</ci></apply>", "<apply><lt/><ci>v1</ci></apply>", "<apply><xor/><ci>v1</ci></apply>", "<apply><plus/><ci>v1</ci><apply><eq/><ci>v1</ci><ci>v1</ci></apply></apply>",
              "<true/>", "<false/>", "<pi/>", "<exponentiale/>", "<infinity/>", "<notanumber/>", "<foo/>", "<apply><foo/><ci>v1</ci></apply>", "<semantics><ci>v1</ci></semantics>", "<lambda><bvar><ci>v1</ci></bvar><ci>v1</ci></lambda>",
              "<apply><plus/><ci>v1</ci><bvar><ci>t</ci></bvar></apply>", "<degree><ci>v1</ci></degree>", "<logbase><ci>v1</ci></logbase>", "<bvar><ci>t</ci></bvar>", "<sep/>", "<piece><ci>v1</ci><true/></piece>", "<otherwise><ci>v1</ci></otherwise>",
-             "text", "<apply><plus/>text<ci>v1</ci></apply>", "<!-- c -->", "<apply><plus/><!-- c --><ci>v1</ci><ci>v1</ci></apply>", "<![CDATA[<ci>v1</ci>]]>",
+             "text", "<apply><plus/>text<ci>v1</ci></apply>", "<!-- c -->", "<ci><!-- c -->v1</ci>", "<ci>v1<!-- c --></ci>", "<cn cellml:units='u1'><!-- c -->1</cn>", "<cn cellml:units='u1'>1<!-- c --></cn>",
+             "<cn cellml:units='u1' type='e-notation'><!-- c -->1<!-- c --><sep/><!-- c -->2</cn>", "<cn cellml:units='u1' type='e-notation'>1<sep/>2<!-- c --></cn>", "<apply><plus/><!-- c --><ci>v1</ci><ci>v1</ci></apply>", "<![CDATA[<ci>v1</ci>]]>",
              "{NEST:<apply><plus/><ci>v1</ci>:</apply>:200}", "{NEST:<apply><plus/><ci>v1</ci>:</apply>:3000}", "{NEST:<apply><minus/>:</apply>:300}",
              "{NEST:<piecewise><piece><ci>v1</ci><true/></piece><otherwise>:</otherwise></piecewise>:150}", "<apply><plus/>{REP:<ci>v1</ci>:2000}</apply>",
              "<ci>v1{REP: :30000}</ci>", "<apply><plus/>{REP: :30000}<ci>v1</ci><ci>v1</ci></apply>",        \* long runs of whitespace (the document stays under 64 KiB)
